@@ -38,6 +38,7 @@ def run(chk: Check, proj: Project) -> None:
     s3(chk, proj, w)
     s4(chk, proj, w)
     s5(chk, proj, w)
+    s9_stored_text(chk, proj)
     s6(chk, proj, w)
     s7_own_backend(chk, proj)
     s8_key_fields(chk, proj)
@@ -465,6 +466,38 @@ def s5(chk: Check, proj: Project, w, rule: str = "S5") -> None:
                     ok = f"is_nonempty_str({a})" in norm(t)
                     chk.ob(rule, f"dependencies:{fn}:{short(t, 60)}", dm.loc(st), ok, f"decision on `{a}` uses is_nonempty_str" if ok else f"`{short(t)}` decides on `{a}` by plain truthiness while the other side uses is_nonempty_str: a whitespace-only script is announced but never cached (404), or cached but never announced")
     chk.floor(rule, n, 8)
+    # every OTHER use of the predicate in this module asks the same thing: the class's script as attribute lookup sees it
+    # (inheritance-aware), never the class's own media record
+    for mm, q, fn in proj.all_funcs():
+        if mm is not dm:
+            continue
+        for c in calls(fn, "is_nonempty_str"):
+            if not c.args:
+                continue
+            src_txt = norm(c.args[0])
+            own_only = "_component_media" in src_txt or "__dict__" in src_txt or "vars(" in src_txt
+            if own_only:
+                chk.violated(rule, f"dependencies:{q}:{short(c, 60)}", dm.loc(c),
+                             f"`{short(c)}` in {q} asks the class's OWN media record, while caching and URL emission ask `comp_cls.js` / `.css` (which a subclass inherits): for a component that inherits its script the URL is announced and the script cached, but this test says 'none' - a GET of the announced URL answers 404")
+
+
+def s9_stored_text(chk: Check, proj: Project) -> None:
+    chk.rule("S9", "what the endpoint serves is what the class declares: the value written to the script cache is the script parameter itself, at most `.strip()`ped at its ends - no transformation that rewrites the inside of the text")
+    dm = proj.mod("dependencies")
+    f = dm.func("_cache_script")
+    chk.analysed(fkey(dm, f))
+    sp = params(f)[1]
+    sets = [c for c in calls(f) if isinstance(c.func, ast.Attribute) and c.func.attr == "set" and len(c.args) >= 2]
+    chk.floor("S9", len(sets), 1)
+    for c in sets:
+        v = c.args[1]
+        if isinstance(v, ast.Name) and v.id != sp:
+            d = [x for _s, x in assignments(f, v.id) if x is not None]
+            v = d[0] if len(d) == 1 else v
+        ok = norm(v) in (sp, f"{sp}.strip()")
+        chk.ob("S9", "dependencies:_cache_script:stored-text-is-the-script", dm.loc(c), ok,
+               f"cache.set(key, {norm(v)})" if ok else
+               f"`{short(c)}` stores a transformed text (`{norm(v)}`): the body served under the announced URL is no longer exactly the component's JS / CSS (whitespace inside a JS template literal or a CSS `content:` string is rewritten)")
 
 
 MANIFEST = {
